@@ -250,7 +250,7 @@ pub fn recover_check(opts: &StoreOpts, dir: &Path, model: &Model, lo: u64, hi: u
 					}
 				}
 				if viol.is_none() && deep {
-					viol = deep_checks(&tree, &opts, &dir, &got, &all_keys, no_flush_leg).await;
+					viol = deep_checks(&tree, &opts, &dir, &got, &all_keys, no_flush_leg, seed).await;
 					return (viol, p, got);
 				}
 				let _ = tree.close().await;
@@ -381,7 +381,7 @@ pub fn index_torn_by_power_loss(opts: &StoreOpts, power_loss: bool, v: &Violatio
 
 /// C07 legs on a successfully recovered store: commit to existing keys must be newest
 /// (now, after flush, after reopen); reopening again yields the same contents.
-async fn deep_checks(tree: &surrealkv::Tree, opts: &StoreOpts, dir: &Path, got: &BTreeMap<Key, Val>, keys: &[Key], no_flush_leg: bool) -> Option<Violation> {
+async fn deep_checks(tree: &surrealkv::Tree, opts: &StoreOpts, dir: &Path, got: &BTreeMap<Key, Val>, keys: &[Key], no_flush_leg: bool, seed: u64) -> Option<Violation> {
 	let mut expect = got.clone();
 	// overwrite up to 3 existing keys and one fresh key
 	let targets: Vec<Key> = got.keys().take(3).cloned().chain(std::iter::once(b"zz_probe".to_vec())).collect();
@@ -429,6 +429,14 @@ async fn deep_checks(tree: &surrealkv::Tree, opts: &StoreOpts, dir: &Path, got: 
 	}
 	// reopen twice
 	for round in 0..2 {
+		// the second reopen uses another (valid) level count: what is on disk has to open and
+		// read the same under it - deeper levels than configured stay, missing ones are added
+		let mut o2 = opts.clone();
+		if round == 1 && (seed >> 3) % 2 == 0 {
+			let alt = [1u8, 2, 3, 4, 6];
+			o2.level_count = alt[((seed >> 5) % alt.len() as u64) as usize];
+		}
+		let opts = &o2;
 		let t2 = match open_store(opts, dir) {
 			Ok(t) => t,
 			Err(e) => return Some(Violation::new("open_failed", format!("reopen #{} after recovery + clean close failed: {}", round + 1, e))),
